@@ -526,7 +526,13 @@ func (rt *runtime) convertCallParameter(v Value, t reflect.Type) (reflect.Value,
 
 				rv, err := v.Call(nullValue, l...)
 				if err != nil {
-					panic(err)
+					// The script function threw: hand that on as a script exception,
+					// which Run reports and try/catch can catch, not as a Go error value.
+					var oerr *Error
+					if errors.As(err, &oerr) {
+						panic(oerr.ottoError)
+					}
+					panic(newException(stringValue(err.Error())))
 				}
 
 				if t.NumOut() == 0 {
